@@ -1,3 +1,4 @@
+import GPy.C02.Gen
 import GPy.C13.Gen
 import GPy.C12.Gen
 import GPy.C04.Gen
@@ -29,6 +30,7 @@ def main (args : List String) : IO UInt32 := do
     | "C04" => GPy.C04.genMain tier seed; return 0
     | "C12" => GPy.C12.genMain tier seed; return 0
     | "C13" => GPy.C13.genMain tier seed; return 0
+    | "C02" => GPy.C02.genMain tier seed; return 0
     | _ => IO.eprintln s!"unknown property {prop}"; return 2
   | ["C12verify"] => GPy.C12.verifyMain; return 0
   | _ => IO.eprintln "usage: gpymodel <Cxx> <quick|thorough> <seed>"; return 2
